@@ -82,7 +82,10 @@ func (p *Program) verifyFunc(fi *FuncInfo, spec *FuncSpec) (c *Ctx, err error) {
 	case "off":
 		c.nopanic = false
 	}
-	x := &X{c: c, prog: p}
+	x := &X{c: c, prog: p, revealed: map[string]bool{}}
+	for _, r := range spec.Reveal {
+		x.revealed[r] = true
+	}
 	defer func() {
 		if r := recover(); r != nil {
 			if ee, ok := r.(evalErr); ok {
@@ -141,6 +144,7 @@ func (p *Program) verifyFunc(fi *FuncInfo, spec *FuncSpec) (c *Ctx, err error) {
 		}
 	}
 	c.assume(st.pc, bvcmp("bvugt", c.alloc(st), BVInt(0, 64)))
+	c.entrySym = c.symN
 	f.entryNames = names
 	// ghost variables
 	for _, gv := range spec.GhostVars {
@@ -200,21 +204,17 @@ func (p *Program) verifyFunc(fi *FuncInfo, spec *FuncSpec) (c *Ctx, err error) {
 	}
 	final := c.mergeAll(f.rets)
 	endPos := x.pos(fi.Decl.Body.Rbrace)
-	if final == nil {
-		c.cover("ret", TFalse, endPos)
-		c.note("function never returns normally under its precondition")
-	} else {
-		c.cover("ret", final.pc, endPos)
+	checkPosts := func(fin *State, suffix string, antecedentCovers bool) {
 		var vals []Value
 		for _, rv := range rvars {
-			vals = append(vals, final.vars[rv])
+			vals = append(vals, fin.vars[rv])
 		}
 		pnames := map[string]Value{}
 		for k, v := range names {
 			pnames[k] = v
 		}
 		bindResults(pnames, sig, vals)
-		penv := &SpecEnv{x: x, st: final, old: f.old, names: pnames, oldNames: names, pkg: f.pkg, frame: f, pos: fi.Decl.Body.Rbrace}
+		penv := &SpecEnv{x: x, st: fin, old: f.old, names: pnames, oldNames: names, pkg: f.pkg, frame: f, pos: fi.Decl.Body.Rbrace}
 		for i := range spec.Ensures {
 			cl := &spec.Ensures[i]
 			t := x.specBool(penv, x.clause(cl))
@@ -222,11 +222,11 @@ func (p *Program) verifyFunc(fi *FuncInfo, spec *FuncSpec) (c *Ctx, err error) {
 			if cl.Name != "" {
 				nm = "post:" + cl.Name
 			}
-			c.obligeNamed(nm, "post", final.pc, t, endPos, cl.Text)
+			c.obligeNamed(nm+suffix, "post", fin.pc, t, endPos, cl.Text)
 			// antecedent reachability for implications (vacuity guard)
-			if cl.Expr.Kind == "implies" {
+			if antecedentCovers && cl.Expr.Kind == "implies" {
 				ant := x.specBool(penv, cl.Expr.L)
-				c.cover(nm+"-antecedent", And(final.pc, ant), endPos)
+				c.cover(nm+"-antecedent", And(fin.pc, ant), endPos)
 			}
 		}
 		for _, fr := range spec.Fresh {
@@ -236,14 +236,49 @@ func (p *Program) verifyFunc(fi *FuncInfo, spec *FuncSpec) (c *Ctx, err error) {
 			}
 			v := x.specEval(penv, pe)
 			r := v.C[0]
-			c.obligeNamed("post:fresh("+fr+")", "post", final.pc,
-				Or(Eq(r, BVInt(0, 64)), And(Not(bvcmp("bvult", r, c.alloc(f.old))), bvcmp("bvult", r, c.alloc(final)))), endPos, "fresh "+fr)
+			c.obligeNamed("post:fresh("+fr+")"+suffix, "post", fin.pc,
+				Or(Eq(r, BVInt(0, 64)), And(Not(bvcmp("bvult", r, c.alloc(f.old))), bvcmp("bvult", r, c.alloc(fin)))), endPos, "fresh "+fr)
 		}
 		if !c.abstract {
-			x.frameObligations(f, final, spec, names, endPos)
+			x.frameObligations(f, fin, spec, names, endPos, suffix)
 		} else {
-			x.ghostFrameObligations(f, final, spec, endPos)
+			x.ghostFrameObligations(f, fin, spec, endPos, suffix)
 			c.assumption("heap frame of abstract-mode function " + c.fnName + " is not checked; its callers havoc everything reachable from the arguments unless the contract lists modifies")
+		}
+	}
+	if final == nil {
+		c.cover("ret", TFalse, endPos)
+		c.note("function never returns normally under its precondition")
+	} else {
+		c.cover("ret", final.pc, endPos)
+		if spec.PerReturn {
+			// one set of postcondition obligations per return site (smaller queries, no array ite);
+			// antecedent covers are checked once on the merged state
+			for k, rs := range f.rets {
+				if rs == nil || rs.pc.isFalse() {
+					continue
+				}
+				checkPosts(rs, fmt.Sprintf("@ret%d", k+1), false)
+			}
+			pn := map[string]Value{}
+			for k, v := range names {
+				pn[k] = v
+			}
+			var vals []Value
+			for _, rv := range rvars {
+				vals = append(vals, final.vars[rv])
+			}
+			bindResults(pn, sig, vals)
+			penv := &SpecEnv{x: x, st: final, old: f.old, names: pn, oldNames: names, pkg: f.pkg, frame: f, pos: fi.Decl.Body.Rbrace}
+			for i := range spec.Ensures {
+				cl := &spec.Ensures[i]
+				if x.clause(cl).Kind == "implies" {
+					ant := x.specBool(penv, cl.Expr.L)
+					c.cover(fmt.Sprintf("post#%d-antecedent", i+1), And(final.pc, ant), endPos)
+				}
+			}
+		} else {
+			checkPosts(final, "", true)
 		}
 	}
 	for _, g := range spec.Ghost {
@@ -272,7 +307,7 @@ func (p *Program) verifyFunc(fi *FuncInfo, spec *FuncSpec) (c *Ctx, err error) {
 
 // frameObligations: every heap cell that existed at entry and is not covered by the
 // modifies clause keeps its value.
-func (x *X) frameObligations(f *Frame, final *State, spec *FuncSpec, names map[string]Value, pos token.Position) {
+func (x *X) frameObligations(f *Frame, final *State, spec *FuncSpec, names map[string]Value, pos token.Position, suffix string) {
 	c := x.c
 	if spec.ModAll {
 		return
@@ -354,7 +389,7 @@ func (x *X) frameObligations(f *Frame, final *State, spec *FuncSpec, names map[s
 			short = h[:2] + h[i+1:]
 		}
 		if !srt.IsArr() || !strings.HasPrefix(string(srt), "(Array (_ BitVec 64)") || strings.HasPrefix(h, "G!") || strings.HasPrefix(h, "$g!") {
-			c.obligeNamed("frame:"+short, "frame", final.pc, Eq(cur, init), pos, "unchanged: "+h)
+			c.obligeNamed("frame:"+short+suffix, "frame", final.pc, Eq(cur, init), pos, "unchanged: "+h)
 			continue
 		}
 		r := c.fresh("fr", SRef)
@@ -363,12 +398,12 @@ func (x *X) frameObligations(f *Frame, final *State, spec *FuncSpec, names map[s
 			conds = append(conds, Not(Eq(r, a)))
 		}
 		goal := Implies(And(conds...), Eq(Select(cur, r), Select(init, r)))
-		c.obligeNamed("frame:"+short, "frame", final.pc, goal, pos, "cells outside modifies unchanged: "+h)
+		c.obligeNamed("frame:"+short+suffix, "frame", final.pc, goal, pos, "cells outside modifies unchanged: "+h)
 	}
 }
 
 // ghostFrameObligations (abstract mode): ghost globals not listed in modifies are unchanged.
-func (x *X) ghostFrameObligations(f *Frame, final *State, spec *FuncSpec, pos token.Position) {
+func (x *X) ghostFrameObligations(f *Frame, final *State, spec *FuncSpec, pos token.Position, suffix string) {
 	c := x.c
 	listed := map[string]bool{}
 	for _, m := range spec.Modifies {
@@ -391,6 +426,6 @@ func (x *X) ghostFrameObligations(f *Frame, final *State, spec *FuncSpec, pos to
 		if cur == init {
 			continue
 		}
-		c.obligeNamed("frame:"+name, "frame", final.pc, Eq(cur, init), pos, "ghost state unchanged: "+name)
+		c.obligeNamed("frame:"+name+suffix, "frame", final.pc, Eq(cur, init), pos, "ghost state unchanged: "+name)
 	}
 }
